@@ -63,6 +63,40 @@ def generate(rng, tier, n):
     return cases
 
 
+def repeated_chance(t, seen=frozenset()):
+    """does some chance infoset label (on nodes with >= 2 outcomes) occur twice on one root-to-leaf path?"""
+    if "t" in t:
+        return False
+    if "o" in t:
+        lab = t.get("c")
+        if lab is not None and len(t["o"]) >= 2:
+            if lab in seen:
+                return True
+            seen = seen | {lab}
+        return any(repeated_chance(c, seen) for _, c in t["o"])
+    return any(repeated_chance(c, seen) for _, c in t["a"])
+
+
+def corpus():
+    """probe of the known finding: the same chance infoset twice on a path"""
+    def T(x):
+        return {"t": f2b(x)}
+
+    def P(x):
+        return {"p": 1, "i": 1, "a": [[1, T(x)], [2, T(0.0)]]}
+
+    def inner(a, b):
+        return {"c": 7, "o": [[f2b(1.0), P(a)], [f2b(1.0), P(b)]]}
+    t = {"c": 7, "o": [[f2b(1.0), inner(1.0, -10.0)], [f2b(1.0), inner(-10.0, 1.0)]]}
+    from ..gen import tree_stats
+    cb = CaseBuilder(900000, t, {"stats": tree_stats(t), "method": "sampled", "preset": "dcfr", "threads": 1, "probe": True})
+    cb.meta["stat_runs"] = []
+    s = cb.solve("sampled", 3000, 0.0, 1, "dcfr", {"weighted_seed": 12345}, kind="solve_long")
+    cb.info(s, kind="info_long")
+    cb.meta["stat_runs"].append((3000, 0))
+    return [cb]
+
+
 def monitor(cb, impl):
     hits = []
     if "ops" not in impl:
@@ -82,7 +116,8 @@ def monitor(cb, impl):
         env = D * N * math.sqrt(A) / math.sqrt(T)
         if not (reg < env):
             hits.append(("%s/%s, %d threads, T=%d: true regret %r is not below D*N*sqrt(A)/sqrt(T) = %r (D=%r N=%d A=%d)"
-                         % (m["method"], m["preset"], m["threads"], T, reg, env, D, N, A), "regret-envelope"))
+                         % (m["method"], m["preset"], m["threads"], T, reg, env, D, N, A),
+                         "repeated-chance-infoset" if repeated_chance(cb.tree) else "regret-envelope"))
     return hits
 
 
@@ -100,7 +135,7 @@ def run(out, rng, tier, args):
     import importlib
     check = importlib.import_module("__main__")
     n = args.n or (N_THOROUGH if tier == "thorough" else N_QUICK)
-    cases = generate(rng, tier, n)
+    cases = corpus() + generate(rng, tier, n)
     # keep the implementation results for the collection-level statistic
     from .. import harness as H
     keep = {}
@@ -119,7 +154,7 @@ def run(out, rng, tier, args):
     rel = {T: [] for T in TS}
     for cb in cases:
         r = keep.get(cb.cid, {})
-        if "ops" not in r:
+        if "ops" not in r or cb.meta.get("probe") or repeated_chance(cb.tree):
             continue
         D, _, _ = game_constants(cb.tree)
         if D <= 0:
